@@ -100,7 +100,10 @@ def gen_case(r, index, tier):
         cands = [i for i, o in enumerate(ops) if o["op"] in ("refine", "uniform", "griddify", "loop", "must")]
         if cands:
             i = r.choice(cands)
-            ops[i]["fault"] = {"kind": "abort", "line_event": r.randint(1, r.choice([10, 30, 300, 3000]))}
+            # the interruption lands at a seeded *fraction* of the operation's own length (measured by a traced dry run), so
+            # that it falls inside the operation whatever its size; sometimes at an absolute early line instead
+            ops[i]["fault"] = {"kind": "abort", "frac": round(r.random(), 4)} if r.chance(0.75) else \
+                {"kind": "abort", "line_event": r.randint(1, r.choice([10, 30, 300]))}
             if r.chance(0.7):
                 # the caller catches the interruption and simply tries again on the same allocation
                 retry = {k: v for k, v in ops[i].items() if k != "fault"}
@@ -506,11 +509,15 @@ def _stub_optimise(alloc, seed, mode, t):
     if not tree:
         a = cells[0]
         tree.append([a.rect, {mods[0]: 1.0}, 0 if mode == "extract" else a.depth])
-    present = {m for item in tree for m in item[1]}
+    present = {m for item in tree for m, x in item[1].items() if x > 0}
     free = [item for item in tree if not item[0].fixed]
     for m in mods:
-        if m not in present and free and not any(m in a.alloc for a in cells if a.rect.fixed):
+        if m not in present and free:
             r.choice(free)[1][m] = r.choice([1.0, 0.6, round(0.05 + 0.9 * r.random(), 3)])
+            present.add(m)
+    for item in tree:   # a module left with zero entries only has no area: the constructor would divide by it
+        for m in [m for m in item[1] if m not in present]:
+            del item[1][m]
     return tree
 
 
@@ -572,8 +579,9 @@ def _run_case_body(case, fs, root):
             a0 = _A.Allocation(build)
     except BaseException as e:  # noqa
         # the generator only produces valid allocations; a rejection is a finding of the constructor
-        viol.append({"property": "C02", "clause": "valid allocation rejected by the constructor", "key": {"op": "load"},
-                     "detail": {"exc": repr(e)}})
+        # whether a layout is accepted is the loader's business (C05's subject); C02 starts from an accepted allocation
+        probe("initial_allocation_rejected_by_the_constructor")
+        hist.append({"seq": -1, "op": "load", "out": "rejected: " + repr(e)[:80]})
         return _result(case, viol, hist, probes, ops_count, fired, configured, sig, 0)
     _model_fixed.clear()
     _model_fixed[id(a0)] = {MCell(ra).key() for ra in a0.allocations if ra.rect.fixed}
@@ -586,7 +594,11 @@ def _run_case_body(case, fs, root):
     def run_op(fn, fault):
         if fault is not None and fault["kind"] == "abort":
             configured["abort"] = configured.get("abort", 0) + 1
-            ab = abortmod.Aborter(root, fault["line_event"])
+            k_ = fault.get("line_event")
+            if k_ is None:
+                total = abortmod.count_line_events(root, fn)   # dry run: the operations are pure w.r.t. their operand
+                k_ = max(1, int(fault["frac"] * total))
+            ab = abortmod.Aborter(root, k_)
             st, val = ab.run(fn)
             if st == "aborted":
                 fired["abort"] = fired.get("abort", 0) + 1
@@ -841,7 +853,9 @@ def _run_case_body(case, fs, root):
             outcome = "raised " + type(e).__name__
             prop = "C02"
             viol.append({"property": prop, "clause": "operation raised on a valid allocation",
-                         "key": {"op": kind, "exc": type(e).__name__},
+                         "key": {"op": kind, "exc": type(e).__name__,
+                                 "units": "large" if (float(tol.size) >= 1e6 and not tol.exact) else "ordinary",
+                                 "overlap_assertion": "rectangles overlap" in repr(e)},
                          "detail": {"seq": seq, "op": o, "exc": repr(e)[:300], "cells": [_fmt(c) for c in old[:12]]}})
         entry["out"] = outcome
         hist.append(entry)
